@@ -36,7 +36,17 @@ def main():
             from sa import selftest
             from sa.report import triage
             main_verdict = "violation" if triage(rep)[0] else "pass"
-            st = selftest.run(pid, a.repo, main_verdict)
+            import json as _json
+            files = set()
+            for line in open(os.path.join(os.path.dirname(os.path.abspath(__file__)), "properties.jsonl")):
+                d_ = _json.loads(line)
+                if d_["id"] == pid:
+                    files |= set(d_["anchors"]["files"])
+            for q in rep.functions:                       # functions the interpreter entered / rules inspected
+                mod = str(q).split(":")[0]
+                if mod.startswith(ctx.p.package):
+                    files.add(mod.replace(".", "/") + ".py")
+            st = selftest.run(pid, a.repo, main_verdict, consulted_files=files)
             rep.extra["selftest"] = st
             b, g = st["breaking"], st["benign"]
             print(f"SELF-TEST property={pid}: breaking variants {b['detected']}/{b['total'] - b['skipped']} reported "
